@@ -309,7 +309,7 @@ def load_image_band(filename,
         else:
             raise Exception(f"Too many NAXIS: {NAXIS}>4")
     if 'BSCALE' in header:
-        data *= header['BSCALE']
+        data = data * header['BSCALE']
     # adjust the header to match the data shape
     header['NAXIS2'] = row_max-row_min
     header['CRPIX2'] -= row_min
